@@ -492,6 +492,9 @@ type LogProbe struct {
 	TwinCount   int          `json:"twin_count"`
 	TwinAt      []ecs.Entity `json:"twin_at"`
 	TwinPanic   bool         `json:"twin_panic"`
+	// a probe naming a removed entity as target (the typed API rejects a stale per-query target, the ID-based API
+	// does not check: the API paths are not compared on these)
+	Stale bool `json:"stale"`
 }
 
 type LogReset struct {
@@ -2247,10 +2250,12 @@ func (x *Exec) staleProbes() {
 			continue
 		}
 		for _, o := range cand {
-			x.emit(x.probe(0, GenFlt{With: []string{c}, Without: []string{}, Ft: FlexMap[int]{c: o}, Qt: FlexMap[int]{}}, api))
-			if api == "unsafe" {
-				x.emit(x.probe(0, GenFlt{With: []string{c}, Without: []string{}, Ft: FlexMap[int]{}, Qt: FlexMap[int]{c: o}}, api))
-			}
+			p1 := x.probe(0, GenFlt{With: []string{c}, Without: []string{}, Ft: FlexMap[int]{c: o}, Qt: FlexMap[int]{}}, api)
+			p1.Stale = true
+			x.emit(p1)
+			p2 := x.probe(0, GenFlt{With: []string{c}, Without: []string{}, Ft: FlexMap[int]{}, Qt: FlexMap[int]{c: o}}, api)
+			p2.Stale = true
+			x.emit(p2)
 		}
 	}
 }
